@@ -32,7 +32,7 @@ META = {
         'accepted either way: an optional single leading zero before the point (also when that leaves a bare point for a zero); on which side of $ a leading sign sits; '
         'a minus on a negative number whose shown digits are all zero; ! with the empty string (blank or nothing); '
         'zero in an exponential field (GW shows no mantissa digits); exponential fields without any mantissa digit '
-        'position; with $$ / **$ and ^^^^ (ruled out by the manual) only width, the % rule, $, decimals and the value are judged, not which positions hold digits; a trailing comma in a field without point; format strings with several fields. Left-justification in \\ \\ fields '
+        'position; with $$ / **$ and ^^^^ (ruled out by the manual) only width, the % rule (not for negative numbers without a sign position), $, decimals and the value are judged, not which positions hold digits; a trailing comma in a field without point; format strings with several fields. Left-justification in \\ \\ fields '
         'and the digit positions of the exponential form are taken from the manual. String bytes 0x20-0xFF (control '
         'characters would be interpreted by the output device).'),
     'rule': ('case = (path, field spec, exact value bytes) or (path, string field, string); distinct by that triple; '
@@ -172,9 +172,9 @@ def _numeric_file(res, cases, batch=400):
                     res.violation('using:error-%s-on-well-formed-field' % code,
                                   'PRINT#1,USING %r; %s -> %r' % (f.spec, float(rnum.decode(b)), out),
                                   ['file', f.to_json(), b.hex()])
-                    if code == 0:
-                        # something was printed on the screen; the file line may still be there
-                        wrote.append((f, b))
+                    # the statement may have written part of its line: end that line and skip it when reading back
+                    box.ex(b'PRINT#1,""')
+                    wrote.append(None)
                     continue
                 wrote.append((f, b))
             box.ex(b'CLOSE 1')
@@ -189,7 +189,10 @@ def _numeric_file(res, cases, batch=400):
                 res.violation('using:file-line-count', 'expected %d lines, file has %d' % (len(wrote), len(lines)),
                               ['file', [f.to_json() for f, _ in chunk[:3]]])
                 continue
-            for (f, b), line in zip(wrote, lines):
+            for item, line in zip(wrote, lines):
+                if item is None:
+                    continue
+                f, b = item
                 res.case(('file', f.spec, b))
                 res.count('path_file')
                 if not (line.startswith(b'<') and line.endswith(b'>')):
@@ -208,7 +211,7 @@ def _over_24(res):
     from .. import harness
     with harness.Box() as box:
         for spec in (b'#' * 25, b'#' * 13 + b'.' + b'#' * 12, b'$$' + b'#' * 24, b'**' + b'#' * 23, b'**$' + b'#' * 23,
-                     b'+' + b'#' * 20 + b'.#####-'[:-1], b'#' * 25 + b'^^^^'):
+                     b'+' + b'#' * 20 + b'.#####', b'#' * 25 + b'^^^^'):
             try:
                 out = box.ex(b'PRINT USING "' + spec + b'";1')
             except harness.Internal as e:
@@ -252,6 +255,8 @@ def _strings(res, rng, n, batch=300):
                 if out:
                     res.violation('using:string:error-%s-on-well-formed-field' % harness.err_of(out)[0],
                                   'PRINT#1,USING %r; %r -> %r' % (f.spec, s[:40], out), ['string', f.to_json(), s])
+                    box.ex(b'PRINT#1,""')
+                    wrote.append(None)
                     continue
                 wrote.append((f, s))
             box.ex(b'CLOSE 1')
@@ -267,7 +272,10 @@ def _strings(res, rng, n, batch=300):
                 res.violation('using:file-line-count', 'expected %d lines, file has %d' % (len(wrote), len(lines)),
                               ['string', [f.to_json() for f, _ in chunk[:3]]])
                 continue
-            for (f, s), line in zip(wrote, lines):
+            for item, line in zip(wrote, lines):
+                if item is None:
+                    continue
+                f, s = item
                 res.case(('string', f.spec, s))
                 res.count('path_file')
                 if not (line.startswith(b'<') and line.endswith(b'>')):
